@@ -3,6 +3,8 @@ use crate::engine::Ctx;
 pub mod c01;
 pub mod c03;
 pub mod c05;
+pub mod c13;
+pub mod c15;
 
 pub type RunFn = fn(&Ctx);
 
@@ -10,4 +12,6 @@ pub const ALL: &[(&str, RunFn)] = &[
     ("C01", c01::run),
     ("C03", c03::run),
     ("C05", c05::run),
+    ("C13", c13::run),
+    ("C15", c15::run),
 ];
